@@ -174,6 +174,11 @@ theorem rinv_step (s s' : St) (e : Ev) (hI : RInv s) (h : step s e = some s') : 
     split at h
     · simp at h; subst h; exact hI
     · simp at h
+  | boff k b =>
+    simp only [step] at h
+    split at h
+    · simp at h; subst h; exact hI
+    · simp at h
   | probe j c =>
     simp only [step] at h
     split at h
